@@ -19,7 +19,8 @@ META = {
                   "Corollaries proved for all inputs (Remed/VulnsMore.v): the decision and well-formedness are invariant under "
                   "any permutation of a range's events, of an entry's ranges and of the record's entries; the boundary rules in "
                   "closed form for all ranks a<b ([introduced a, fixed b] = a<=v<b; [introduced a, last_affected b] = a<=v<=b; "
-                  "[introduced 0, fixed b] = v<b; [introduced a] = a<=v).",
+                  "[introduced 0, fixed b] = v<b; [introduced a] = a<=v); a record is the disjunction of its entries "
+                  "(is_affected (v1++v2) = is_affected v1 || is_affected v2) and a super-record never loses a match.",
     "level_note": "Trusted: Coq kernel + vm_compute; the Go harness (rank assignment by deps.dev semver Compare, which is "
                   "treated as a total preorder oracle); versions are abstracted to ranks; hook guidedremediation/verif_export.go.",
     "design_ref": "DESIGN.md section 5 C18",
